@@ -243,4 +243,101 @@ theorem source_cum_mask_eq_filter (op : CumOp) (k : Kind) (ng : Int) (rows : Lis
   unfold LoopBridge.outAt
   rw [cum_mask_eq_filter op k rows i r hi hs]
 
+/-! ### rolling kernels, stated about the translated source
+
+Each translated rolling kernel is characterised (C09, `source_rolling_*_eq_window`) by "the cell of a selected row with
+a non-null key is a function of the selected values of its group up to that row".  Any function of that shape
+commutes with deleting the unselected rows (here) and the null-key rows (C06). -/
+
+/-- a row-aligned output that only depends on the selected values of the row's group so far -/
+def WindowFn (P : List CRow → Prop) (out : List CRow → Int → Val) (F : List Val → Val) : Prop :=
+  ∀ (rows : List CRow) (i : Nat) (r : CRow), P rows → rows[i]? = some r → 0 ≤ r.code → r.sel = true →
+    out rows (i : Int) = F (selVals (rows.take (i + 1)) r.code)
+
+theorem WindowFn.mask_eq_filter {P : List CRow → Prop} {out : List CRow → Int → Val} {F : List Val → Val}
+    (h : WindowFn P out F) (hP : ∀ rows, P rows → P (filterSel rows))
+    (rows : List CRow) (i : Nat) (r : CRow) (hp : P rows) (hi : rows[i]? = some r) (hg : 0 ≤ r.code) (hs : r.sel = true) :
+    out rows (i : Int) = out (filterSel rows) (rankSel rows i : Int) := by
+  obtain ⟨hf, hv⟩ := filtered_at_rank rows i r hi hs
+  rw [h rows i r hp hi hg hs, h (filterSel rows) (rankSel rows i) r (hP rows hp) hf hg hs, hv]
+
+/-- the translated `_rolling_sum_or_mean_1d` on a list of rows (one chunk, mask given) -/
+def srcRollSum (k : Kind) (divf : Val → Int → Val) (op : RollOp) (w : Nat) (minp : Option Nat) (ng : Int)
+    (rows : List CRow) : Int → Val :=
+  (Generated.Loops.rolling_sum_or_mean k divf (rows.map (·.code)).length (arrOf (rows.map (·.code)) 0) [rows.map (·.val)]
+    ng w minp.isSome (minp.getD 0) true (rows.map (·.sel)).length (arrOf (rows.map (·.sel)) true) (nullValue k)
+    (decide (op = .mean))).1
+
+theorem getD_map_of_getElem? {α β : Type} (f : α → β) (l : List α) (i : Nat) (a : α) (d : β) (h : l[i]? = some a) :
+    (l.map f).getD i d = f a := by
+  simp [List.getD_eq_getElem?_getD, List.getElem?_map, h]
+
+theorem srcRollSum_window (k : Kind) (divf : Val → Int → Val) (op : RollOp) (hop : op = .sum ∨ op = .mean) (w : Nat)
+    (hw : 0 < w) (minp : Option Nat) (ng : Int) (hnv : LoopBridge.NumOrNull k (nullValue k)) :
+    WindowFn (fun rows => ∀ r ∈ rows, LoopBridge.NumOrNull k r.val) (srcRollSum k divf op w minp ng)
+      (fun hist => LoopBridge.cellVal divf (nullValue k) (specRollAt k op w (minp.getD w) hist)) := by
+  intro rows i r hp hi hg hs
+  have hlt : i < rows.length := by
+    rcases Nat.lt_or_ge i rows.length with h | h
+    · exact h
+    · rw [List.getElem?_eq_none_iff.mpr h] at hi; simp at hi
+  have h := C09.source_rolling_sum_mean_eq_window k divf op hop w hw minp (rows.map (·.code)) [rows.map (·.val)]
+    (rows.map (·.sel)) true ng ((rows.map (·.sel)).length : Int) (nullValue k) (by simp)
+    (by intro v hv; simp only [List.flatten_cons, List.flatten_nil, List.append_nil, List.mem_map] at hv
+        obtain ⟨r', hr', rfl⟩ := hv; exact hp r' hr')
+    hnv rfl i (by simpa using hlt)
+    (by rw [getD_map_of_getElem? _ _ _ _ _ hi]; exact hg)
+    (by rw [getD_map_of_getElem? _ _ _ _ _ hi, hs]; rfl)
+  simp only [List.flatten_cons, List.flatten_nil, List.append_nil, cumRows_of_rows,
+    getD_map_of_getElem? (·.code) rows i r 0 hi] at h
+  exact h
+
+/-- **rolling sum / mean, mask = filtering first (translated source)** -/
+theorem source_rolling_sum_mask_eq_filter (k : Kind) (divf : Val → Int → Val) (op : RollOp) (hop : op = .sum ∨ op = .mean)
+    (w : Nat) (hw : 0 < w) (minp : Option Nat) (ng : Int) (hnv : LoopBridge.NumOrNull k (nullValue k))
+    (rows : List CRow) (hwf : ∀ r ∈ rows, LoopBridge.NumOrNull k r.val) (i : Nat) (r : CRow)
+    (hi : rows[i]? = some r) (hg : 0 ≤ r.code) (hs : r.sel = true) :
+    srcRollSum k divf op w minp ng rows (i : Int) = srcRollSum k divf op w minp ng (filterSel rows) (rankSel rows i : Int) :=
+  (srcRollSum_window k divf op hop w hw minp ng hnv).mask_eq_filter
+    (fun rows hp r hr => hp r (List.mem_filter.mp hr).1) rows i r hwf hi hg hs
+
+/-- the translated `_rolling_max_or_min_1d` on a list of rows -/
+def srcRollMax (k : Kind) (wantMax : Bool) (w : Nat) (minp : Option Nat) (ng : Int) (rows : List CRow) : Int → Val :=
+  (Generated.Loops.rolling_max_or_min k (rows.map (·.code)).length (arrOf (rows.map (·.code)) 0) [rows.map (·.val)]
+    ng w minp.isSome (minp.getD 0) true (rows.map (·.sel)).length (arrOf (rows.map (·.sel)) true) (nullValue k) wantMax).1
+
+theorem srcRollMax_window (k : Kind) (wantMax : Bool) (w : Nat) (hw : 0 < w) (minp : Option Nat) (hminp : 0 < minp.getD w)
+    (ng : Int) :
+    WindowFn (fun rows => (∀ r ∈ rows, WF k r.val) ∧ (∀ r ∈ rows, r.val = .nan → nullValue k = .nan))
+      (srcRollMax k wantMax w minp ng)
+      (fun hist => LoopBridge.cellVal (fun a _ => a) (nullValue k)
+        (specRollAt k (if wantMax then RollOp.max else RollOp.min) w (minp.getD w) hist)) := by
+  intro rows i r hp hi hg hs
+  have hlt : i < rows.length := by
+    rcases Nat.lt_or_ge i rows.length with h | h
+    · exact h
+    · rw [List.getElem?_eq_none_iff.mpr h] at hi; simp at hi
+  have h := (C09.source_rolling_max_min_eq_window k wantMax w hw minp hminp (rows.map (·.code)) [rows.map (·.val)]
+    (rows.map (·.sel)) true ng ((rows.map (·.sel)).length : Int) (by simp)
+    (by intro v hv; simp only [List.flatten_cons, List.flatten_nil, List.append_nil, List.mem_map] at hv
+        obtain ⟨r', hr', rfl⟩ := hv; exact hp.1 r' hr')
+    (by intro v hv; simp only [List.flatten_cons, List.flatten_nil, List.append_nil, List.mem_map] at hv
+        obtain ⟨r', hr', rfl⟩ := hv; exact hp.2 r' hr')
+    i (by simpa using hlt)
+    (by rw [getD_map_of_getElem? _ _ _ _ _ hi]; exact hg)
+    (by rw [getD_map_of_getElem? _ _ _ _ _ hi, hs]; rfl)).2
+  simp only [List.flatten_cons, List.flatten_nil, List.append_nil, cumRows_of_rows,
+    getD_map_of_getElem? (·.code) rows i r 0 hi] at h
+  exact h
+
+/-- **rolling max / min, mask = filtering first (translated source)** -/
+theorem source_rolling_max_mask_eq_filter (k : Kind) (wantMax : Bool) (w : Nat) (hw : 0 < w) (minp : Option Nat)
+    (hminp : 0 < minp.getD w) (ng : Int) (rows : List CRow) (hwf : ∀ r ∈ rows, WF k r.val)
+    (hnan : ∀ r ∈ rows, r.val = .nan → nullValue k = .nan) (i : Nat) (r : CRow)
+    (hi : rows[i]? = some r) (hg : 0 ≤ r.code) (hs : r.sel = true) :
+    srcRollMax k wantMax w minp ng rows (i : Int) = srcRollMax k wantMax w minp ng (filterSel rows) (rankSel rows i : Int) :=
+  (srcRollMax_window k wantMax w hw minp hminp ng).mask_eq_filter
+    (fun rows hp => ⟨fun r hr => hp.1 r (List.mem_filter.mp hr).1, fun r hr => hp.2 r (List.mem_filter.mp hr).1⟩)
+    rows i r ⟨hwf, hnan⟩ hi hg hs
+
 end GV.C05
